@@ -687,6 +687,18 @@ TARGETS = [
          cfg=dict(params=[("bs", "Bytes")], ret="Nat", outcome=True, reads={"read_u64": "takeLE bs 8"})),
     dict(name="offsetParse", group="Open", file="src/bases/types/offset.rs", fn="parse", after=r"impl Parsable for Offset",
          cfg=dict(params=[("bs", "Bytes")], ret="Nat", outcome=True, reads={"read_u64": "takeLE bs 8"})),
+    dict(name="idxU8Parse", group="Open", file="src/bases/types/idx.rs", fn="parse", after=r"impl Parsable for Idx<u8>",
+         cfg=dict(params=[("bs", "Bytes")], ret="Nat", outcome=True, reads={"read_u8": "takeLE bs 1"})),
+    dict(name="idxU16Parse", group="Open", file="src/bases/types/idx.rs", fn="parse", after=r"impl Parsable for Idx<u16>",
+         cfg=dict(params=[("bs", "Bytes")], ret="Nat", outcome=True, reads={"read_u16": "takeLE bs 2"})),
+    dict(name="idxU32Parse", group="Open", file="src/bases/types/idx.rs", fn="parse", after=r"impl Parsable for Idx<u32>",
+         cfg=dict(params=[("bs", "Bytes")], ret="Nat", outcome=True, reads={"read_u32": "takeLE bs 4"})),
+    dict(name="idxU64Parse", group="Open", file="src/bases/types/idx.rs", fn="parse", after=r"impl Parsable for Idx<u64>",
+         cfg=dict(params=[("bs", "Bytes")], ret="Nat", outcome=True, reads={"read_u64": "takeLE bs 8"})),
+    dict(name="idU8Parse", group="Open", file="src/bases/types/id.rs", fn="parse", after=r"impl Parsable for Id<u8>",
+         cfg=dict(params=[("bs", "Bytes")], ret="Nat", outcome=True, reads={"read_u8": "takeLE bs 1"})),
+    dict(name="idU16Parse", group="Open", file="src/bases/types/id.rs", fn="parse", after=r"impl Parsable for Id<u16>",
+         cfg=dict(params=[("bs", "Bytes")], ret="Nat", outcome=True, reads={"read_u16": "takeLE bs 2"})),
     # ---- the head of Layout::parse (the statements before the properties are split into common part and variants)
     dict(name="layoutParseHead", group="Parse", file="src/reader/directory_pack/layout/mod.rs", fn="parse", after=r"impl Parsable for Layout",
          prefix_until=(r"let mut common_properties", ["entry_count", "is_entry_checked", "entry_size", "variant_count", "raw_layout"]),
